@@ -13,10 +13,10 @@ import (
 
 func init() {
 	register(&propCheck{
-		id:    "C06",
-		level: "other",
-		explanation: "Agreement of the filesystem API with a reference model over programs of calls is behavioural and is not decidable statically. Decided here are three structural clauses of the statement's second sentence: (Z1) 'leaves no file handle open — on success, failure or cancellation': for every call in package filesystem that yields a file handle (GenericOpen, OpenFile, CreateFile, TempFile, the backend's Open/Create/OpenFile, zip.File.Open, the archive-reader helpers that return the opened file), on the side where a handle exists either the handle is handed to the caller (returned, stored in a returned structure) or every path to an exit passes a Close on it — explicit, or deferred on that path; (Z2) 'a copy never changes its source': in the copy call graph every mutating filesystem method is invoked on the destination filesystem parameter, never on the source one, and the source handle is only read; (Z3) a move removes its source only on the nil side of the copy/rename it falls back to. Decided on SSA; nothing is executed. (Z5) on the same filesystem object the resolved destination handed to the copy workers is compared with the source and no worker is reachable where they are equal — 'a copy never changes its source, also when source and destination overlap'; (Z6) the recursive folder worker is reached only after a containment test between source and resolved destination — 'a call terminates' (violated by the pinned sources: known finding K8); (Z4) 'the resulting tree matches the model' needs every write to replace: a handle opened for writing with O_CREATE carries O_TRUNC (or O_APPEND/O_EXCL). Not decided: values returned, error kinds, resulting trees, termination.",
-		run:   runC06,
+		id:              "C06",
+		level:           "other",
+		explanation:     "Agreement of the filesystem API with a reference model over programs of calls is behavioural and is not decidable statically. Decided here are three structural clauses of the statement's second sentence: (Z1) 'leaves no file handle open — on success, failure or cancellation': for every call in package filesystem that yields a file handle (GenericOpen, OpenFile, CreateFile, TempFile, the backend's Open/Create/OpenFile, zip.File.Open, the archive-reader helpers that return the opened file), on the side where a handle exists either the handle is handed to the caller (returned, stored in a returned structure) or every path to an exit passes a Close on it — explicit, or deferred on that path; (Z2) 'a copy never changes its source': in the copy call graph every mutating filesystem method is invoked on the destination filesystem parameter, never on the source one, and the source handle is only read; (Z3) a move removes its source only on the nil side of the copy/rename it falls back to. Decided on SSA; nothing is executed. (Z5) on the same filesystem object the resolved destination handed to the copy workers is compared with the source and no worker is reachable where they are equal — 'a copy never changes its source, also when source and destination overlap'; (Z6) the recursive folder worker is reached only after a containment test between source and resolved destination — 'a call terminates' (violated by the pinned sources: known finding K8); (Z4) 'the resulting tree matches the model' needs every write to replace: a handle opened for writing with O_CREATE carries O_TRUNC (or O_APPEND/O_EXCL). Not decided: values returned, error kinds, resulting trees, termination.",
+		run:             runC06,
 		thoroughConfigs: []string{"darwin/amd64", "windows/amd64"},
 		assumptions: []string{
 			"descriptors opened inside afero itself or by gopsutil's disk.Usage are outside the rule",
